@@ -15,6 +15,7 @@ import (
 	"github.com/emersion/go-smtp"
 	"github.com/foxcpp/maddy/framework/buffer"
 	"github.com/foxcpp/maddy/framework/config"
+	"github.com/foxcpp/maddy/framework/exterrors"
 	"github.com/foxcpp/maddy/framework/log"
 	"github.com/foxcpp/maddy/framework/module"
 	"pgregory.net/rapid"
@@ -26,7 +27,8 @@ type c09pScenario struct {
 	Rewrites map[int][]int `json:"rewrites"`
 	Rcpts    []int         `json:"rcpts"`
 	Fail     []int         `json:"failing_effective"` // effective addresses whose per-recipient status is an error
-	TwoLevel bool          `json:"second_rewrite_in_destination_block"`
+	Refuse   []int         `json:"second_target_refuses,omitempty"` // client recipients that a second target of the block refuses (AddRcpt fails there)
+	Level    string        `json:"rewrite_level"` // global | source | destination | both (global 1-to-1, then destination block)
 }
 
 var c09pClient = []string{"alias1@example.org", "alias2@example.org", "plain@example.org", "list@example.org"}
@@ -59,10 +61,36 @@ func c09pRun(sc c09pScenario) (vs []ev.V) {
 		args = append(args, c09pClient[k], strings.Join(vals, ","))
 	}
 	nodes := []config.Node{}
-	if len(args) > 0 {
-		nodes = append(nodes, config.Node{Name: "modify", Children: []config.Node{{Name: "replace_rcpt", Args: append([]string{"verif_map"}, args...)}}})
+	deliver := config.Node{Name: "deliver_to", Args: []string{"verif_ptgt", "t1"}}
+	var second []config.Node
+	if len(sc.Refuse) > 0 {
+		second = []config.Node{{Name: "deliver_to", Args: []string{"verif_ptgt", "t2"}}}
 	}
-	nodes = append(nodes, config.Node{Name: "deliver_to", Args: []string{"verif_ptgt", "t1"}})
+	mod := func(a []string) config.Node {
+		return config.Node{Name: "modify", Children: []config.Node{{Name: "replace_rcpt", Args: append([]string{"verif_map"}, a...)}}}
+	}
+	switch {
+	case len(args) == 0:
+		nodes = append(append(nodes, deliver), second...)
+	case sc.Level == "source":
+		nodes = append(nodes, config.Node{Name: "source", Args: []string{"example.com"}, Children: append([]config.Node{mod(args), deliver}, second...)},
+			config.Node{Name: "default_source", Children: []config.Node{{Name: "reject"}}})
+	case sc.Level == "destination":
+		nodes = append(nodes, config.Node{Name: "destination", Args: []string{"example.org"}, Children: append([]config.Node{mod(args), deliver}, second...)},
+			config.Node{Name: "default_destination", Children: []config.Node{{Name: "reject"}}})
+	case sc.Level == "both":
+		// client address -> intermediate address globally, intermediate -> effective addresses in the destination block
+		var first, second2 []string
+		for i := 0; i+1 < len(args); i += 2 {
+			mid := "mid-" + args[i]
+			first = append(first, args[i], mid)
+			second2 = append(second2, mid, args[i+1])
+		}
+		nodes = append(nodes, mod(first), config.Node{Name: "destination", Args: []string{"example.org"}, Children: append([]config.Node{mod(second2), deliver}, second...)},
+			config.Node{Name: "default_destination", Children: []config.Node{{Name: "reject"}}})
+	default:
+		nodes = append(append(nodes, mod(args), deliver), second...)
+	}
 	p, err := New(nil, nodes)
 	if err != nil {
 		return []ev.V{ev.Vf("harness:load", "%v", err)}
@@ -70,6 +98,19 @@ func c09pRun(sc c09pScenario) (vs []ev.V) {
 	p.Log = log.Logger{Out: log.NopOutput{}}
 	for _, e := range sc.Fail {
 		vRec.fail["t1/status/"+c09pEffective[e]] = fmt.Errorf("scripted failure for %s", c09pEffective[e])
+	}
+	refusedClient := map[string]bool{}
+	for _, k := range sc.Refuse {
+		refusedClient[c09pClient[k]] = true
+		eff := []string{c09pClient[k]}
+		if exp, ok := sc.Rewrites[k]; ok {
+			eff = nil
+			for _, e := range exp {
+				eff = append(eff, c09pEffective[e])
+			}
+		}
+		// the second target refuses the last effective address of the recipient
+		vRec.fail["t2/rcpt/"+eff[len(eff)-1]] = &exterrors.SMTPError{Code: 550, EnhancedCode: exterrors.EnhancedCode{5, 1, 1}, Message: "second target: no such user"}
 	}
 	ctx := context.Background()
 	d, err := p.Start(ctx, &module.MsgMetadata{ID: "c09p", DontTraceSender: true}, "sender@example.com")
@@ -94,7 +135,9 @@ func c09pRun(sc c09pScenario) (vs []ev.V) {
 	reported := map[string]bool{}
 	for _, k := range col.keys {
 		reported[k] = true
-		if !supplied[k] {
+		if !supplied[k] && refusedClient[k] {
+			vs = append(vs, ev.Vf("status:pipeline-result-for-refused-recipient:later-target-refused", "the pipeline refused recipient %q (its second target did), yet it reports a result for it: the first target kept the recipient (accepted: %q)", k, accepted))
+		} else if !supplied[k] {
 			vs = append(vs, ev.Vf("status:pipeline-key-not-client-address", "result reported under %q, the client supplied %q (rewrites %v)", k, accepted, sc.Rewrites))
 		}
 	}
@@ -118,7 +161,7 @@ func c09pRun(sc c09pScenario) (vs []ev.V) {
 func TestVerifC09Pipeline(t *testing.T) {
 	r := ev.Get("C09")
 	ev.Run(t, r, ev.Spec[c09pScenario]{Name: "pipeline", N: r.N, Gen: func(t *rapid.T) c09pScenario {
-		sc := c09pScenario{Rewrites: map[int][]int{}}
+		sc := c09pScenario{Rewrites: map[int][]int{}, Level: rapid.SampledFrom([]string{"global", "source", "destination", "both"}).Draw(t, "level")}
 		next := 0
 		for k := 0; k < len(c09pClient); k++ {
 			if rapid.Bool().Draw(t, "rewritten") && next < len(c09pEffective) {
@@ -130,6 +173,9 @@ func TestVerifC09Pipeline(t *testing.T) {
 			}
 		}
 		sc.Rcpts = rapid.SliceOfNDistinct(rapid.IntRange(0, len(c09pClient)-1), 1, 4, rapid.ID[int]).Draw(t, "rcpts")
+		if rapid.IntRange(0, 3).Draw(t, "second_target") == 0 {
+			sc.Refuse = rapid.SliceOfNDistinct(rapid.SampledFrom(sc.Rcpts), 1, 2, rapid.ID[int]).Draw(t, "refuse")
+		}
 		if next > 0 {
 			sc.Fail = rapid.SliceOfNDistinct(rapid.IntRange(0, next-1), 0, 2, rapid.ID[int]).Draw(t, "fail")
 		}
@@ -141,6 +187,6 @@ func TestVerifC09Pipeline(t *testing.T) {
 				rw = true
 			}
 		}
-		return ev.Info{Nontrivial: rw && len(sc.Fail) > 0}
+		return ev.Info{Nontrivial: rw && len(sc.Fail) > 0, Classes: []string{"level=" + sc.Level}}
 	}})
 }
